@@ -262,7 +262,7 @@ func (x *restrictor) zeroStructNonRequired(st sel, t *idlgen.RType, nv *values.V
 }
 
 // explain walks expected and observed values in parallel and names the first difference by its cause.
-func (x *restrictor) explain(st sel, t *idlgen.RType, nv, exp, got *values.Value, write bool) string {
+func (x *restrictor) explain(st sel, t *idlgen.RType, nv, exp, got *values.Value, write bool, env []envMask) string {
 	if values.EqualCanon(exp, got) {
 		return ""
 	}
@@ -273,7 +273,7 @@ func (x *restrictor) explain(st sel, t *idlgen.RType, nv, exp, got *values.Value
 				j := 0
 				for i, e := range nv.E {
 					if sub, keep := st.child(step{kind: 'i', id: int64(i)}); keep {
-						if r := x.explain(sub, t.Elem, e, exp.E[j], got.E[j], write); r != "" {
+						if r := x.explain(sub, t.Elem, e, exp.E[j], got.E[j], write, nil); r != "" {
 							return r
 						}
 						j++
@@ -296,7 +296,7 @@ func (x *restrictor) explain(st sel, t *idlgen.RType, nv, exp, got *values.Value
 					}
 					sub, _ := st.child(keyStep(t.Key, se.Key(p)))
 					if orig != nil {
-						if r := x.explain(sub, t.Elem, orig, se.Val(p), sg.Val(p), write); r != "" {
+						if r := x.explain(sub, t.Elem, orig, se.Val(p), sg.Val(p), write, nil); r != "" {
 							return r
 						}
 					}
@@ -313,6 +313,17 @@ func (x *restrictor) explain(st sel, t *idlgen.RType, nv, exp, got *values.Value
 		}
 		sub, keep := st.child(step{kind: 'f', id: int64(f.ID)})
 		isUnion := f.Type.Kind == idlgen.RStruct && x.s.Structs[f.Type.Sidx].Kind != 's'
+		if x.o.halfway && f.Type.Kind == idlgen.RStruct && (keep || f.Req == idlgen.Required) {
+			for k := range env {
+				if env[k].pos == i && env[k].tree != nil {
+					// the child's own mask is the one in force
+					if r := x.explain(rootSel(env[k].black, env[k].tree), f.Type, nv.E[i], exp.E[i], got.E[i], write, nil); r != "" {
+						return r
+					}
+					return "field"
+				}
+			}
+		}
 		switch {
 		case isUnion && !st.black && keep && values.EqualCanon(got.E[i], f.Initial()):
 			return "union-field-white-unselectable"
@@ -329,7 +340,7 @@ func (x *restrictor) explain(st sel, t *idlgen.RType, nv, exp, got *values.Value
 		case !keep:
 			return "filtered-field-present"
 		case keep:
-			if r := x.explain(sub, f.Type, nv.E[i], exp.E[i], got.E[i], write); r != "" {
+			if r := x.explain(sub, f.Type, nv.E[i], exp.E[i], got.E[i], write, nil); r != "" {
 				if r == "value" && values.EqualCanon(got.E[i], f.Initial()) {
 					return "selected-field-absent"
 				}
